@@ -109,7 +109,7 @@ CHECKS = {
              "prefix + ucinewgame; all runs are validated in one trace, every go must agree with memo or extend it. Also: the script "
              "without its leading position commands, fresh and behind a repetition-history prefix + ucinewgame; and table pressure - one "
              "game searched to depth 6-7 after every few moves without ucinewgame, in several processes (several key draws), and games whose first "
-             "search is a depth-8 one (more than 2^18 table entries). A game continued ACROSS a ucinewgame (the next position command extends "
+             "search is a depth-8 one (more than 2^18 table entries), and a pawn endgame searched to depth 17 (16 million nodes, more than 2^20 entries). A game continued ACROSS a ucinewgame (the next position command extends "
              "the abandoned game) and every tail that follows a ucinewgame are also run in a fresh process and must agree.",
         design_ref="DESIGN.md section 5, C13", note=_UCI_NOTE,
         technique="TLA+ protocol spec with output memo; repeated runs of TLC-simulated scripts on the real binary; TLC trace validation"),
